@@ -54,7 +54,7 @@ func flushDepths(header []string) []int {
 	var out []int
 	n := len(header) // levels = n (base + layers); top depth 0 = last layer
 	for i, l := range header {
-		if i > 0 && l == "f" {
+		if i > 0 && (l == "f" || l == "z") {
 			out = append(out, n-1-i)
 		}
 	}
@@ -84,7 +84,7 @@ func Gen(r *rand.Rand, c GenCfg) []string {
 		return pool[r.Intn(len(pool))]
 	}
 	val := func() string {
-		if c.BigValues && r.Intn(12) == 0 {
+		if c.BigValues && r.Intn(4) == 0 {
 			return "*" + strconv.Itoa(40000+r.Intn(30000)) + "*" + Alphabet[r.Intn(len(Alphabet))]
 		}
 		return values[r.Intn(len(values))]
@@ -126,7 +126,7 @@ func Gen(r *rand.Rand, c GenCfg) []string {
 		case x < 72: // batch activity
 			b := r.Intn(2)
 			bt := strconv.Itoa(b)
-			if !bs[b].bound || r.Intn(12) == 0 {
+			if !bs[b].bound || r.Intn(25) == 0 {
 				emit("bnew", bt, handle())
 				bs[b] = bstate{bound: true}
 				break
@@ -140,15 +140,15 @@ func Gen(r *rand.Rand, c GenCfg) []string {
 				}
 				break
 			}
-			switch y := r.Intn(10); {
-			case y < 4:
+			switch y := r.Intn(20); {
+			case y < 10:
 				emit("bput", bt, key(), val())
-			case y < 6:
+			case y < 14:
 				emit("bdel", bt, key())
-			case y < 8:
+			case y < 17:
 				emit("bwrite", bt)
 				bs[b].written = true
-			case y < 9:
+			case y < 19:
 				emit("brep", bt)
 			default:
 				emit("breset", bt)
